@@ -476,7 +476,46 @@ func caseMetaSQL(c *core.Ctx, r *rand.Rand) {
 	reparseAfterMutation(c, r, text, true, fresh, st, st2)
 }
 
+// tagFilterPair: Marshal is used as a map key for tag filter results (query/operator), so two
+// filters must have equal bytes exactly when they are equal filters.
+func tagFilterPair(c *core.Ctx, r *rand.Rand) {
+	c.Branch("marshal-injective")
+	small := []string{"a", "b", "", "a\",\"value\":\"b", "host"}
+	mk := func() stmt.Expr {
+		k, v := small[r.Intn(len(small))], small[r.Intn(len(small))]
+		var e stmt.Expr
+		switch r.Intn(5) {
+		case 0:
+			e = &stmt.EqualsExpr{Key: k, Value: v}
+		case 1:
+			e = &stmt.LikeExpr{Key: k, Value: v}
+		case 2:
+			e = &stmt.RegexExpr{Key: k, Regexp: v}
+		case 3:
+			e = &stmt.InExpr{Key: k, Values: []string{v}}
+		default:
+			e = &stmt.InExpr{Key: k, Values: []string{v, small[r.Intn(len(small))]}}
+		}
+		if r.Intn(4) == 0 {
+			e = &stmt.NotExpr{Expr: e}
+		}
+		return e
+	}
+	for k := 0; k < 6; k++ {
+		a, b := mk(), mk()
+		same := exprDump(a) == exprDump(b)
+		if bytes.Equal(stmt.Marshal(a), stmt.Marshal(b)) != same {
+			c.Fail("marshal-not-injective", fmt.Sprintf("Marshal bytes equal=%v for filters %s and %s", !same, exprDump(a), exprDump(b)))
+		}
+	}
+	exprOps(c, mk(), "")
+}
+
 func caseTrees(c *core.Ctx, r *rand.Rand) {
+	if r.Intn(8) == 0 {
+		tagFilterPair(c, r)
+		return
+	}
 	switch r.Intn(4) {
 	case 0:
 		c.Branch("random-query-value")
@@ -685,6 +724,76 @@ func caseDeterminism(c *core.Ctx, r *rand.Rand) {
 	}
 }
 
+// caseAliasing: the fixed replay of the aliasing oracle — a statement with two absolute time
+// bounds, one relative to now(), one without a range and a metadata statement; each is parsed,
+// planned by the real planner step, rewritten in place, and parsed again (sequentially and by
+// concurrent requests that each plan + rewrite their own result).
+func caseAliasing(c *core.Ctx, r *rand.Rand) {
+	c.Branch("aliasing-fixed")
+	texts := []struct {
+		text string
+		abs  bool
+	}{
+		{"select f*2, sum(g) as s from cpu" + absRange + " and host='a' group by host,time(10s) having f>1.5 order by s desc", true},
+		{"select f from cpu where time > now()-1h and host in ('a','b')", false},
+		{"select max(f) from cpu where host like 'a*'", false},
+		{"show tag values from cpu with key=host where ip='1.1.1.1' limit 5", true},
+	}
+	for _, t := range texts {
+		st, err := parse(c, t.text)
+		if err != nil {
+			c.Fail("aliasing-witness-rejected", t.text+": "+err.Error())
+			continue
+		}
+		fresh := stmtDump(st, t.abs)
+		if q, ok := st.(*stmt.Query); ok {
+			quiet(func() { realPlan(r, q) })
+			if stmtDump(st, t.abs) == fresh && t.abs {
+				c.Note("planner step did not change the statement")
+			}
+		}
+		reparseAfterMutation(c, r, t.text, t.abs, fresh, st)
+		// concurrent requests with the same text
+		var wg sync.WaitGroup
+		var mu sync.Mutex
+		bad := 0
+		for w := 0; w < 4; w++ {
+			wg.Add(1)
+			go func(seed int64) {
+				defer wg.Done()
+				lr := rand.New(rand.NewSource(seed))
+				for k := 0; k < 20; k++ {
+					func() {
+						defer func() {
+							if rec := recover(); rec != nil {
+								mu.Lock()
+								bad++
+								mu.Unlock()
+							}
+						}()
+						s2, err := sql.Parse(t.text)
+						if err != nil || stmtDump(s2, t.abs) != fresh {
+							mu.Lock()
+							bad++
+							mu.Unlock()
+							return
+						}
+						if q, ok := s2.(*stmt.Query); ok {
+							quiet(func() { realPlan(lr, q) })
+						}
+						scramble(s2)
+					}()
+				}
+			}(r.Int63())
+		}
+		wg.Wait()
+		if bad > 0 {
+			c.Fail("parse-result-shared", fmt.Sprintf("%q: %d of 80 concurrent parse+plan requests did not get a fresh statement", t.text, bad))
+		}
+	}
+	c.NonTrivial()
+}
+
 func (area) Run(c *core.Ctx) error {
 	if err := checkStructs(); err != nil {
 		return err
@@ -700,6 +809,8 @@ func (area) Run(c *core.Ctx) error {
 			caseWitnesses(c, i)
 		case i == 4:
 			caseIntervals(c, r)
+		case i == 5:
+			caseAliasing(c, r)
 		default:
 			switch k := r.Intn(100); {
 			case k < 45:
